@@ -16,7 +16,8 @@ EXPLANATION = ("Static rules on MIR: (dir-count) every success path of generate_
                "immediately after it and the directory size is header+array; (index-bound) every typed-array slot "
                "write uses an index ranging over the allocated length (length algebra); (rva-origin) every stored "
                "RVA/location originates from a typed writer's location; (pos-append) position-derived RVAs are followed "
-               "by the append they describe.")
+               "by the append they describe; (string-length) every string blob's u32 header is 2 * the number of UTF-16 units of the body "
+               "array that directly follows it (same rule as C16/string).")
 TRUSTED = ["scroll SizeWith/TryIntoCtx sizes of minidump-common records", "std iterator length semantics (enumerate/filter/count/len)"]
 ASSUMPTIONS = ["size!(T) equals the on-disk record size (minidump-common)", "only the Linux x86_64 configuration is analysed; the mac writer shares DirSection/Buffer only"]
 
@@ -784,6 +785,9 @@ def run(ctx):
     rule_index_bound(ctx)
     rule_rva_origin(ctx)
     rule_pos_append(ctx)
+    # string blobs (module/thread/handle/link-map names, OS version): the length header is the byte length of the body that follows it
+    from rules import c16
+    c16.rule_string(ctx, R="C01/string-length")
     try:
         from rules import c19
         c19.rule_stale_field(ctx, rule="C01/one-flush-owner", only=("memory_blocks",))
